@@ -83,8 +83,9 @@ ALT_CLASSES = ["record-u8-u16-u8-u32", "variant-f32-s64", "list-u32", "list-tupl
 
 
 def configs(tier, seed):
-    base = {"name": "default", "opts": {}, "std": False, "classes": None, "resources": True}
-    alt = {"name": "borrowing-std-rawstrings-merge", "std": True, "resources": False,
+    base = {"name": "default", "opts": {}, "std": False, "classes": None, "resources": True, "bitflags": True}
+    # bitflags=False: wit-bindgen's fallback `bitflags!` shim (crate feature off) instead of the bitflags crate
+    alt = {"name": "borrowing-std-rawstrings-merge", "std": True, "resources": False, "bitflags": False,
            "opts": {"ownership": "borrowing", "std_feature": "true", "raw_strings": "true", "merge_structurally_equal_types": "true"},
            "classes": ALT_CLASSES}
     if tier != "thorough":
@@ -104,7 +105,7 @@ def configs(tier, seed):
             out.append({"name": "%s-%s%s%s" % (own_, "std" if std else "nostd", "-raw" if "raw_strings" in o else "",
                                                "-merge" if "merge_structurally_equal_types" in o else ""),
                         "opts": o, "std": std, "classes": ALT_CLASSES + ["record-equal-twin", "list-string", "record-u8-string"],
-                        "resources": False})
+                        "resources": False, "bitflags": not std})
     return out
 
 
